@@ -705,15 +705,12 @@ Qed.
 Lemma forallb_eq_ext {A} (f g : A -> bool) l : (forall x, f x = g x) -> forallb f l = forallb g l.
 Proof. intros H. induction l as [|x l IH]; simpl; auto. rewrite H, IH. reflexivity. Qed.
 
-(** the default configuration asks for the normal equations of [1 X], as before *)
+(** the default problem (fit_intercept, not positive -- whatever copy_X / n_jobs) asks for the normal
+    equations of [1 X], the clause as it was *)
 Theorem fit_ok_default cfg Xf thf b0 b :
   cf_fit_intercept cfg = true -> cf_positive cfg = false ->
   fit_ok cfg Xf thf b0 b = normal_eq_ok Xf thf b0 b.
-Proof.
-  intros Hf Hp. unfold fit_ok, normal_eq_ok. cbv zeta. rewrite Hf.
-  change (seq 0 (S (length b))) with (0%nat :: seq 1 (length b)). simpl forallb.
-  f_equal. apply forallb_eq_ext. intros j. unfold slope_ok. rewrite Hp. reflexivity.
-Qed.
+Proof. intros Hf Hp. unfold fit_ok, default_problem. rewrite Hf, Hp. reflexivity. Qed.
 
 (** [copy_X] and [n_jobs] do not take part: two configurations that pose the same problem admit
     exactly the same coefficients (and the adjusted values are a function of X, theta and the
@@ -723,10 +720,13 @@ Theorem fit_ok_same_problem a b' Xf thf b0 b :
 Proof.
   unfold same_problem. intros H. apply andb_true_iff in H. destruct H as [H1 H2].
   apply eqb_prop in H1. apply eqb_prop in H2.
-  unfold fit_ok. cbv zeta. rewrite H1. f_equal. apply forallb_eq_ext. intros j. unfold slope_ok. rewrite H2. reflexivity.
+  unfold fit_ok, default_problem. cbv zeta. rewrite H1, H2.
+  destruct (cf_fit_intercept b' && negb (cf_positive b')); auto.
+  f_equal. apply forallb_eq_ext. intros j. unfold slope_ok. rewrite H2. reflexivity.
 Qed.
 
-Theorem fit_ok_sound cfg Xf thf b0 b : fit_ok cfg Xf thf b0 b = true ->
+(** the other problems *)
+Theorem fit_ok_sound cfg Xf thf b0 b : default_problem cfg = false -> fit_ok cfg Xf thf b0 b = true ->
   (cf_fit_intercept cfg = false -> b0 == 0)
   /\ (cf_fit_intercept cfg = true -> Qabs (grad Xf thf b0 b 0) <= grad_lim Xf thf b0 b 0)
   /\ forall j, (1 <= j <= length b)%nat ->
@@ -736,7 +736,7 @@ Theorem fit_ok_sound cfg Xf thf b0 b : fit_ok cfg Xf thf b0 b = true ->
            /\ - grad_lim Xf thf b0 b j <= grad Xf thf b0 b j
            /\ (~ nth (pred j) b 0 == 0 -> Qabs (grad Xf thf b0 b j) <= grad_lim Xf thf b0 b j)).
 Proof.
-  unfold fit_ok. cbv zeta. fold (grad Xf thf b0 b 0) (grad_lim Xf thf b0 b 0).
+  intros Hd. unfold fit_ok. rewrite Hd. cbv zeta. fold (grad Xf thf b0 b 0) (grad_lim Xf thf b0 b 0).
   intros H. apply andb_true_iff in H. destruct H as [H0 H1].
   split; [|split].
   - intros Hf. rewrite Hf in H0. apply Qeq_bool_eq, H0.
